@@ -78,7 +78,7 @@ func flowMod() *module {
 			r := &flow.Rule{ID: fmt.Sprint(rapid.IntRange(0, 9).Draw(t, "id")), Resource: rapid.SampledFrom([]string{"a", "b", "c", ""}).Draw(t, "res"),
 				Threshold: rapid.SampledFrom([]float64{-1, 0, 1.5, 10, 1e9}).Draw(t, "thr"), ControlBehavior: flow.ControlBehavior(rapid.SampledFrom([]int{0, 0, 1, 7}).Draw(t, "cb")),
 				TokenCalculateStrategy: flow.TokenCalculateStrategy(rapid.SampledFrom([]int{0, 0, 1}).Draw(t, "tcs")), MaxQueueingTimeMs: uint32(rapid.IntRange(0, 100).Draw(t, "q")),
-				StatIntervalInMs: uint32(rapid.SampledFrom([]int{0, 1000, 3000}).Draw(t, "iv")), WarmUpPeriodSec: uint32(rapid.IntRange(0, 3).Draw(t, "wp")), WarmUpColdFactor: uint32(rapid.SampledFrom([]int{0, 1, 3}).Draw(t, "wc"))}
+				StatIntervalInMs: uint32(rapid.SampledFrom([]int{0, 1000, 3000, 2000, 2500, 5000, 10000}).Draw(t, "iv")), WarmUpPeriodSec: uint32(rapid.IntRange(0, 3).Draw(t, "wp")), WarmUpColdFactor: uint32(rapid.SampledFrom([]int{0, 1, 3}).Draw(t, "wc"))}
 			if rapid.IntRange(0, 4).Draw(t, "assoc") == 0 {
 				r.RelationStrategy, r.RefResource = flow.AssociatedResource, rapid.SampledFrom([]string{"b", ""}).Draw(t, "ref")
 			}
@@ -452,7 +452,12 @@ func deliver(t *rapid.T, h datasource.PropertyHandler, payload []byte) (err erro
 func runHandler(t *testing.T, name string, n hx.N) {
 	hx.Check(t, n, func(t *rapid.T, c *hx.Case) {
 		m := modules[name]()
-		hx.Reset(hx.Epoch)
+		caseCfg := hx.DefaultStat
+		if k := rapid.IntRange(0, 3*len(hx.StatCfgs)).Draw(t, "statConfig"); k < len(hx.StatCfgs) { // one case in three under a legal non-default statistic configuration
+			caseCfg = hx.StatCfgs[k]
+		}
+		c.ClassIf(caseCfg != hx.DefaultStat, "non-default-statistic-configuration")
+		hx.ResetCfg(hx.Epoch, caseCfg, nil)
 		h := m.handler()
 		allowNull := !hx.Known("P10")
 		var lastOK []byte
